@@ -147,11 +147,14 @@ Proof. exact request_id_droppable. Qed.
 (** Non-vacuity. *)
 Example c13_example_strip :
   let t := bs "/app/a%2Fb;v=1/%C3%A9//?q=a;b&%zz" in
-  exists u, parse_request_target t = PAccept u /\
+  match parse_request_target t with
+  | PAccept u =>
     valid_encoded (raw_path_of t) = true /\ literal_prefix (raw_path_of t) (bs "/app") = true /\
     forward_target (Some (bs "/app")) u = bs "/a%2Fb;v=1/%C3%A9//?q=a;b&%zz" /\
-    forward_target None u = t.
-Proof. eexists. vm_compute. repeat split. Qed.
+    forward_target None u = t
+  | _ => False
+  end.
+Proof. vm_compute. repeat split. Qed.
 
 Example c13_example_accept :
   path_accepted (bs "/a%2Fb") = true /\ path_accepted (bs "/a%2") = false /\
